@@ -74,6 +74,12 @@ fn any_inbound(env: &Env) -> Inbound {
 #[kani::proof]
 #[kani::unwind(164)]
 #[kani::stub(axelar_gateway::messaging_interface::xc_AxelarGatewayMessagingClient_validate_message, spec_validate_message)]
+#[kani::stub(axelar_gateway::messaging_interface::xc_AxelarGatewayMessagingClient_is_message_approved, spec_is_message_approved)]
+#[kani::stub(axelar_gateway::messaging_interface::xc_AxelarGatewayMessagingClient_is_message_executed, spec_is_message_executed)]
+#[kani::stub(soroban_sdk::token::xc_TokenClient_transfer_from, spec_transfer_from)]
+#[kani::stub(soroban_sdk::token::xc_TokenClient_burn_from, spec_burn_from)]
+#[kani::stub(soroban_sdk::token::xc_TokenClient_burn, spec_burn)]
+#[kani::stub(soroban_sdk::token::xc_TokenClient_balance, spec_balance)]
 #[kani::stub(crate::abi::get_message_type, stub_get_message_type)]
 #[kani::stub(crate::types::HubMessage::abi_decode, stub_abi_decode)]
 #[kani::stub(soroban_sdk::token::xc_StellarAssetClient_mint, spec_mint)]
